@@ -160,6 +160,16 @@ var variants = []variant{
 		f.nonce = n
 		return true
 	}},
+	{"nonce-shifted-by-whole-bytes", func(r *rand.Rand, f *fields) bool {
+		// n and n*256^k have the same significant bytes: an ID that pads or trims the nonce
+		// instead of committing to its value cannot tell them apart
+		free := channel.MaxNonceLen - len(f.nonce.Bytes())
+		if f.nonce.Sign() == 0 || free < 1 {
+			return false
+		}
+		f.nonce = new(big.Int).Lsh(f.nonce, uint(8*(1+r.Intn(free))))
+		return true
+	}},
 	{"nonce-bit", func(r *rand.Rand, f *fields) bool {
 		n := new(big.Int).Set(f.nonce)
 		b := r.Intn(256)
